@@ -151,7 +151,8 @@ Definition rcase_agree (k : rcase) : bool :=
 Record pcase := {
   pc_cfgs : list pcfg; pc_init : snap; pc_init_states_present : bool;
   pc_steps : list (pstep * snap);
-  pc_restarts : list rcase }.
+  pc_restarts : list rcase;
+  pc_times : list Z }.       (* wall-clock time (us) at which each snapshot of pc_steps was taken *)
 
 Definition pstate_of_snap (cfgs : list pcfg) (o : snap) : pstate :=
   {| ps_store := sn_store o; ps_stop_ts := sn_stop_ts o; ps_extra := sn_extra o;
@@ -202,5 +203,21 @@ Definition failed_start_monitor (k : pcase) : bool :=
 Definition pcase_monitor (k : pcase) : bool :=
   sync_monitor (pc_cfgs k) (map p_persistent (pc_cfgs k)) (pc_steps k) && failed_start_monitor k.
 
+(* the state reported by get_state() (and therefore saved) never carries the expiration time of a
+   timer that is over (2 ms tolerance for the rounding to milliseconds) *)
+Definition fresh_expiry (t : Z) (b : bst) : bool :=
+  match b_expiry b with Some e => t - 2000 <=? e | None => true end.
+Fixpoint expiry_monitor (xs : list (pstep * snap)) (ts : list Z) : bool :=
+  match xs, ts with
+  | (x, _) :: r, t :: ts' =>
+      match x with
+      | PInit states | PStop _ states => forallb (fresh_expiry t) states
+      | PEvent _ _ after => fresh_expiry t after
+      | _ => true
+      end && expiry_monitor r ts'
+  | _, _ => true
+  end.
+
 Definition p_verdict (k : pcase) : ascii :=
-  (if pcase_monitor k then (if pcase_agree k then "A" else "R") else "V")%char.
+  (if pcase_monitor k && expiry_monitor (pc_steps k) (pc_times k)
+   then (if pcase_agree k then "A" else "R") else "V")%char.
